@@ -51,6 +51,8 @@ func c34(c *engine.Ctx) {
 	if p == nil {
 		return
 	}
+	hhUse(p)
+	hhSetStops()
 	const PV = "tm2/pkg/bft/privval.(*PrivValidator)."
 	const FS = "tm2/pkg/bft/privval/state.(*FileState)."
 
@@ -69,16 +71,16 @@ func c34(c *engine.Ctx) {
 		recv := hhRecv(f)
 		chainID, msg := paramObj(f, 0), paramObj(f, 1)
 		names := map[types.Object]string{recv: "pv", chainID: "chainID", msg: "msg"}
-		// role variables from the three calls
-		bindCall := func(pat string, roles ...string) *engine.Site {
-			ss := f.CallsTo(pat)
+		// role variables from the three calls (made directly or inside an extracted helper)
+		bindCall := func(pat string, roles ...string) *engine.DeepSite {
+			ss := hhDeepCalls(f, pat)
 			if len(ss) != 1 {
 				c.Check("sign-normal-form", f.Name+" exactly one call of "+pat, f.Pos(), false, "found "+hhItoa(len(ss)))
 				return nil
 			}
-			rv := hhResultVars(f, ss[0])
+			rv := hhResultVars(ss[0].Inner.Fn, ss[0].Inner)
 			if len(rv) != len(roles) {
-				c.Check("sign-normal-form", f.Name+" results of "+pat+" bound", ss[0].Pos(), false, "results must be bound to variables")
+				c.Check("sign-normal-form", f.Name+" results of "+pat+" bound", ss[0].Outer.Pos(), false, "results must be bound to variables")
 				return nil
 			}
 			for i, r := range roles {
@@ -86,15 +88,16 @@ func c34(c *engine.Ctx) {
 					names[rv[i]] = r
 				}
 			}
-			return ss[0]
+			return &ss[0]
 		}
-		chk := bindCall(FS+"CheckHRS", "sameHRS", "err")
-		ts := bindCall(FS+v.tsCheck, "lastTimestamp", "tsOnly")
-		sg := bindCall("tm2/pkg/bft/types.(Signer).Sign", "signature", "err")
-		up := f.CallsTo(FS + "Update")
-		if chk == nil || ts == nil || sg == nil {
+		chkD := bindCall(FS+"CheckHRS", "sameHRS", "err")
+		tsD := bindCall(FS+v.tsCheck, "lastTimestamp", "tsOnly")
+		sgD := bindCall("tm2/pkg/bft/types.(Signer).Sign", "signature", "err")
+		up := hhDeepCalls(f, FS+"Update")
+		if chkD == nil || tsD == nil || sgD == nil {
 			continue
 		}
+		sg := sgD.Outer
 		// sameHRS / signature / tsOnly assigned once
 		for o, r := range names {
 			if r == "sameHRS" || r == "signature" || r == "tsOnly" || r == "lastTimestamp" {
@@ -103,28 +106,55 @@ func c34(c *engine.Ctx) {
 				}
 			}
 		}
+		// a helper that hands a role value back (signature, err := pv.signFresh(...)): same role for the caller's variable
+		for _, dd := range []*engine.DeepSite{chkD, tsD, sgD} {
+			if dd.Inner == dd.Outer || len(dd.Chain) != 1 {
+				continue
+			}
+			h := dd.Chain[0]
+			outRv := hhResultVars(f, dd.Outer)
+			for _, rb := range h.Graph().ReturnBlocks() {
+				ret := rb.Return()
+				if ret == nil || len(ret.Results) != len(outRv) {
+					continue
+				}
+				for i, e := range ret.Results {
+					if o := engine.ObjOf(h.Info(), e); o != nil && outRv[i] != nil {
+						if nm, ok := names[o]; ok {
+							names[outRv[i]] = nm
+						}
+					}
+				}
+			}
+		}
+		dedup := func(xs []string) []string {
+			sort.Strings(xs)
+			var out []string
+			for i, x := range xs {
+				if i == 0 || x != xs[i-1] || x == "err == nil" {
+					out = append(out, x)
+				}
+			}
+			return out
+		}
+		_ = dedup
 		var rows []string
-		// exits
-		for _, rb := range f.Graph().ReturnBlocks() {
-			ret := rb.Return()
-			rs := f.SiteOf(ret)
-			if rs == nil || len(ret.Results) != 1 {
+		// exits (an exit that returns an extracted helper's result is that helper's exits)
+		for _, ex := range hhExits(f, 2) {
+			if len(ex.Results) != 1 {
 				rows = append(rows, "exit ?")
 				continue
 			}
-			rows = append(rows, "exit "+hhNorm(f, ret.Results[0], names, 2)+" when "+strings.Join(hhCtx(f, rs, names, 2), "; "))
+			rows = append(rows, "exit "+hhNorm(f, ex.Results[0], names, 2)+" when "+strings.Join(hhRenderFacts(f, ex.Facts, names, 2), "; "))
 		}
 		// effects on the message
-		for _, a := range hhFieldAssigns(f, msg) {
-			if a.Site == nil {
-				continue
-			}
-			rows = append(rows, "set msg."+strings.Join(a.Fields, ".")+" = "+hhNorm(f, a.Rhs, names, 2)+" when "+strings.Join(hhCtx(f, a.Site, names, 2), "; "))
+		for _, a := range hhDeepFieldAssigns(f, msg) {
+			rows = append(rows, "set msg."+strings.Join(a.Fields, ".")+" = "+hhNorm(f, a.Rhs, names, 2)+" when "+strings.Join(hhRenderFacts(f, hhDeepFacts(f, a.D), names, 2), "; "))
 		}
 		// the signer call
-		rows = append(rows, "call Sign("+hhNorm(f, hhArg(sg.Call, 0), names, 2)+") on "+hhNorm(f, ast.Unparen(sg.Call.Fun).(*ast.SelectorExpr).X, names, 0)+" when "+strings.Join(hhCtx(f, sg, names, 2), "; "))
-		rows = append(rows, "call CheckHRS("+hhNorm(f, hhArg(chk.Call, 0), names, 2)+", "+hhNorm(f, hhArg(chk.Call, 1), names, 2)+", "+hhNorm(f, hhArg(chk.Call, 2), names, 2)+") on "+hhNorm(f, ast.Unparen(chk.Call.Fun).(*ast.SelectorExpr).X, names, 0))
-		rows = append(rows, "call "+v.tsCheck+"("+hhNorm(f, hhArg(ts.Call, 0), names, 2)+") on "+hhNorm(f, ast.Unparen(ts.Call.Fun).(*ast.SelectorExpr).X, names, 0))
+		rows = append(rows, "call Sign("+hhNorm(f, hhDeepArg(*sgD, 0), names, 2)+") on "+hhNorm(f, hhDeepRecv(*sgD), names, 0)+" when "+strings.Join(hhRenderFacts(f, hhDeepFacts(f, *sgD), names, 2), "; "))
+		rows = append(rows, "call CheckHRS("+hhNorm(f, hhDeepArg(*chkD, 0), names, 2)+", "+hhNorm(f, hhDeepArg(*chkD, 1), names, 2)+", "+hhNorm(f, hhDeepArg(*chkD, 2), names, 2)+") on "+hhNorm(f, hhDeepRecv(*chkD), names, 0))
+		rows = append(rows, "call "+v.tsCheck+"("+hhNorm(f, hhDeepArg(*tsD, 0), names, 2)+") on "+hhNorm(f, hhDeepRecv(*tsD), names, 0))
 		sort.Strings(rows)
 
 		sb := "msg.SignBytes(chainID)"
@@ -145,11 +175,28 @@ func c34(c *engine.Ctx) {
 			"set msg.Timestamp = lastTimestamp when !" + eq + "; err == nil; sameHRS; " + tsOnly,
 			"set msg.Signature = signature when !sameHRS; err == nil; err == nil",
 		}
-		for i := range want {
-			if j := strings.Index(want[i], " when "); j >= 0 {
-				want[i] = want[i][:j] + " when " + hhSortedJoin(want[i][j+6:])
+		canonWhen := func(r string) string {
+			j := strings.Index(r, " when ")
+			if j < 0 {
+				return r
 			}
+			xs := strings.Split(r[j+6:], "; ")
+			sort.Strings(xs)
+			var u []string
+			for i, x := range xs {
+				if i == 0 || x != xs[i-1] {
+					u = append(u, x)
+				}
+			}
+			return r[:j] + " when " + strings.Join(u, "; ")
 		}
+		for i := range want {
+			want[i] = canonWhen(want[i])
+		}
+		for i := range rows {
+			rows[i] = canonWhen(rows[i])
+		}
+		sort.Strings(rows)
 		sort.Strings(want)
 		have := map[string]bool{}
 		for _, r := range rows {
@@ -364,22 +411,23 @@ func c34(c *engine.Ctx) {
 		g := f.Graph()
 		filename, data := paramObj(f, 0), paramObj(f, 1)
 		names := map[types.Object]string{filename: "filename", data: "data"}
-		opens := f.CallsTo("os.OpenFile")
-		writes := f.CallsTo("os.(*File).Write")
-		renames := f.CallsTo("os.Rename")
+		opens := hhDeepCalls(f, "os.OpenFile")
+		writes := hhDeepCalls(f, "os.(*File).Write")
+		renames := hhDeepCalls(f, "os.Rename")
 		var closes []*engine.Site
-		for _, s := range f.CallsTo("os.(*File).Close") {
-			if !s.Deferred {
-				closes = append(closes, s)
+		for _, d := range hhDeepCalls(f, "os.(*File).Close") {
+			if !d.Outer.Deferred && !d.Inner.Deferred {
+				closes = append(closes, d.Outer)
 			}
 		}
 		ok1 := len(opens) == 1 && len(writes) == 1 && len(renames) == 1 && len(closes) >= 1
 		c.Check("atomic-write", f.Name+" one open, one write, a close, one rename", f.Pos(), ok1, "open="+hhItoa(len(opens))+" write="+hhItoa(len(writes))+" close="+hhItoa(len(closes))+" rename="+hhItoa(len(renames)))
 		if ok1 {
-			o, w, r := opens[0], writes[0], renames[0]
+			od, wd, rd := opens[0], writes[0], renames[0]
+			o, w, r := od.Outer, wd.Outer, rd.Outer
 			// flags
 			flagOK, why := false, "flag argument is not a constant"
-			if tv, ok := info.Types[hhArg(o.Call, 1)]; ok && tv.Value != nil {
+			if tv, ok := info.Types[hhArg(od.Inner.Call, 1)]; ok && tv.Value != nil {
 				fv, _ := constant.Int64Val(tv.Value)
 				need := map[string]int64{}
 				if osp := p.ByPath["os"]; osp != nil && osp.Types != nil {
@@ -400,24 +448,22 @@ func c34(c *engine.Ctx) {
 			}
 			c.Check("atomic-write", f.Name+" open flags O_WRONLY|O_CREATE|O_EXCL|O_SYNC", o.Pos(), flagOK, why)
 			// temp file lives in the target's directory
-			nm := hhNorm(f, hhArg(o.Call, 0), names, 3)
+			nm := hhNorm(f, hhDeepArg(od, 0), names, 3)
 			c.Check("atomic-write", f.Name+" temp file in the target directory", o.Pos(), strings.HasPrefix(nm, "path/filepath.Join(path/filepath.Dir(filename), "), "rename is atomic only within one directory; temp name is `"+nm+"`")
 			// order
 			c.Check("atomic-write", f.Name+" open before write", w.Pos(), g.ReachableAfter(o, w) && !g.ReachableAfter(w, o), "the temp file must be opened before, and never after, the write")
-			okw, whyw := hhErrGuard(f, w, r)
+			okw, whyw := hhDeepErrGuard(f, wd, r)
 			c.Check("atomic-write", f.Name+" rename only after an error-free write", r.Pos(), okw, whyw)
 			// short write leaves
 			short := false
-			rv := hhResultVars(f, w)
+			rv := hhResultVars(wd.Inner.Fn, wd.Inner)
 			if len(rv) == 2 && rv[0] != nil {
 				isN := func(e ast.Expr) bool { return engine.ObjOf(info, e) == rv[0] }
 				isLen := func(e ast.Expr) bool { return engine.IsLenOf(info, e, data) }
-				if rs := f.SiteOf(r.Call); rs != nil {
-					short = hhHasCmp(hhFacts(f, r), token.GEQ, isN, isLen)
-				}
+				short = hhHasCmp(hhFacts(f, r), token.GEQ, isN, isLen)
 			}
 			c.Check("atomic-write", f.Name+" short write leaves before rename", r.Pos(), short, "rename must be reached only when n >= len(data)")
-			c.Check("atomic-write", f.Name+" writes the caller's data", w.Pos(), engine.ObjOf(info, hhArg(w.Call, 0)) == data, "")
+			c.Check("atomic-write", f.Name+" writes the caller's data", w.Pos(), engine.ObjOf(info, hhDeepArg(wd, 0)) == data, "")
 			cl := false
 			for _, cs := range closes {
 				if g.Dominates(w, cs) && g.Dominates(cs, r) {
@@ -426,24 +472,34 @@ func c34(c *engine.Ctx) {
 			}
 			c.Check("atomic-write", f.Name+" close between write and rename", r.Pos(), cl, "the file must be closed before it is renamed into place")
 			// rename(temp, target) and its result returned
-			a0, _, isName := hhMethodCall(info, hhArg(r.Call, 0), "Name")
-			fobj := engine.ObjOf(info, ast.Unparen(w.Call.Fun).(*ast.SelectorExpr).X)
-			c.Check("atomic-write", f.Name+" rename(temp, target)", r.Pos(), isName && engine.ObjOf(info, a0) == fobj && fobj != nil && engine.ObjOf(info, hhArg(r.Call, 1)) == filename, "the written temp file must be renamed onto the requested file name")
+			a0, _, isName := hhMethodCall(info, hhDeepArg(rd, 0), "Name")
+			fobj := engine.ObjOf(info, hhDeepRecv(wd))
+			c.Check("atomic-write", f.Name+" rename(temp, target)", r.Pos(), isName && engine.ObjOf(info, a0) == fobj && fobj != nil && engine.ObjOf(info, hhDeepArg(rd, 1)) == filename, "the written temp file must be renamed onto the requested file name")
+			// success exits: `return <rename call>` or `return nil` behind the rename's error guard
 			retOK := false
 			for _, rb := range g.ReturnBlocks() {
 				rt := rb.Return()
-				if len(rt.Results) == 1 && ast.Unparen(rt.Results[0]) == ast.Expr(r.Call) {
+				if len(rt.Results) != 1 {
+					continue
+				}
+				if ast.Unparen(rt.Results[0]) == ast.Expr(r.Call) {
 					retOK = true
+					continue
+				}
+				if isNil(rt.Results[0]) {
+					rs := f.SiteOf(rt)
+					ok, why := false, "unlocated"
+					if rs != nil {
+						ok, why = hhDeepErrGuard(f, rd, rs)
+					}
+					if ok {
+						retOK = true
+					} else {
+						c.Check("atomic-write", f.Name+" no success exit without rename", rt.Pos(), false, "`return nil` bypasses the rename: "+why)
+					}
 				}
 			}
 			c.Check("atomic-write", f.Name+" returns Rename's result", r.Pos(), retOK, "a failed rename must be reported")
-			// no nil-return other than through rename
-			for _, rb := range g.ReturnBlocks() {
-				rt := rb.Return()
-				if len(rt.Results) == 1 && isNil(rt.Results[0]) {
-					c.Check("atomic-write", f.Name+" no success exit without rename", rt.Pos(), false, "`return nil` bypasses the rename")
-				}
-			}
 		}
 	}
 
